@@ -26,7 +26,7 @@ Proof. exact load_conforms_strict. Qed.
 Print Assumptions C05_v0_partial.
 
 (* Outside that region the faithful model violates the property (witnesses replayed on the
-   implementation by harness/props/c05.py; findings F23, F24, F25). *)
+   implementation by harness/props/c05.py; findings F44, F45, F46). *)
 Definition no_orc : pstr -> pv -> ores := fun _ _ => OMiss.
 Definition cfg0 := mkL (S "__tag__").
 
